@@ -317,6 +317,11 @@ def check_C11(tier):
     )
 
 
+ROUND_FNS = ("minimal_lexical::rounding::round", "minimal_lexical::rounding::round_nearest_tie_even")
+R181 = ("R18.1:in every instance of round / round_nearest_tie_even each path from entry to return passes through a call of the rounding callback "
+        "(the direction of rounding is never decided without it)")
+
+
 def check_C18(tier):
     rep = Report("C18", tier)
     cl = ["default"] if tier == "quick" else F.ALL_CONFIGS
@@ -328,13 +333,27 @@ def check_C18(tier):
             keep = ("CARRY_MASK", "HIDDEN_BIT_MASK", "MANTISSA_MASK", "INFINITE_POWER", "MANTISSA_SIZE")
             obs += [o for o in K.format_rules(f, fty) if o.key.split("::")[1] in keep]
         rep.floor("%s: rounding constants" % cfg, len(obs), 10)
+        v = E.lib_view(f)
+        h, n = E.r_must_consult_callback(v, ROUND_FNS)
+        obs += E.hits_to_obs("R18.1", R181, h, n)
+        rep.floor("%s: instances of round / round_nearest_tie_even" % cfg, n, 4)
         rep.add(cfg, obs)
+    fixture = E.fixture_view(F.build_fixture("rel"))
+    h, _ = E.r_must_consult_callback(fixture, ("bad::ctl_skip_callback", "bad::ok_always_callback"))
+    rep.add("controls", [E.control_obs("R18.1", R181, [E.Hit(x.fn.replace("bad::", ""), x.what) for x in h], "ctl_skip_callback"),
+                         K.Ob("control R18.1 silent on fixtures/bad::ok_always_callback", not [x for x in h if "ok_always" in x.fn], "", "CTL:a function whose every path consults the callback is not reported")])
     rep.analysed = {"configurations": cl}
     return rep.finish(
         "other",
-        "Constants the rounding primitive consumes (CARRY_MASK, HIDDEN_BIT_MASK, MANTISSA_MASK, INFINITE_POWER, MANTISSA_SIZE) equal their definitions for both formats.",
+        "(R18.1) every path through rounding::round and round_nearest_tie_even consults the rounding callback before returning (must-pass-through on the "
+        "monomorphic CFG: a path that returns without it would decide the discarded bits alone). Constants the rounding primitive consumes (CARRY_MASK, HIDDEN_BIT_MASK, MANTISSA_MASK, INFINITE_POWER, MANTISSA_SIZE) equal their definitions for both formats.",
         [A_TOOL, A_TARGET],
     )
+
+
+WRAP_OK = set()
+R4 = ("R12.4:limb arithmetic in bigint.rs never uses wrapping_* on a limb type (which would silently drop a carry); wrapping on `usize` is index "
+      "arithmetic (today: `len.wrapping_sub(1)` consumed by a bounds-checked `get`) and is not limb arithmetic")
 
 
 def check_C12(tier):
@@ -350,9 +369,13 @@ def check_C12(tier):
         obs = E.hits_to_obs("R12.1", R, h, n)
         rep.floor("%s: fallible call sites" % cfg, n, 40)
         obs += [o for o in K.table_rules(f) if o.key.startswith(("LARGE_POW5", "SMALL_INT_POW5"))]
+        h, n = E.r_wrapping_arith(v, "minimal_lexical::bigint::", WRAP_OK)
+        obs += E.hits_to_obs("R12.4", R4, h, n)
+        rep.floor("%s: wrapping_* sites in bigint" % cfg, n, 3)
         rep.add(cfg, obs)
+    hw, _ = E.r_wrapping_arith(fixture, "bad::", set())
     h, _ = E.r_dropped_failure(fixture)
-    ctl = [E.control_obs("R12.1", R, h, "ctl_dropped_failure")]
+    ctl = [E.control_obs("R12.1", R, h, "ctl_dropped_failure"), E.control_obs("R12.4", R4, [E.Hit(x.fn.replace("bad::", ""), x.what) for x in hw], "ctl_wrapping_limb")]
     hok = [x for x in h if x.fn == "ok_used_failure"]
     ctl.append(K.Ob("control R12.1 silent on fixtures/bad::ok_used_failure", not hok, "%d hits" % len(hok), "CTL:the accepted idioms (?, unwrap, is_none) are not reported"))
     rep.add("controls", ctl)
@@ -458,7 +481,18 @@ def check_C04(tier):
     _e4_report(rep, "C04", results, lambda j: j["config"], fxs, floor_per_group=150)
     for c in cl:
         rep.add(c + " capacity", K.capacity_rules(fxs[c]))
+    # heap back-end: not analysed by E4, but its capacity discipline is a structural necessary condition
+    acl = ["alloc"] if tier == "quick" else ["alloc", "compact_alloc", "nostd_alloc", "nostd_compact_alloc"]
+    afx = F.build_many([(c, "rel") for c in acl])
+    RH = ("R04.h:every function reachable from parse_float that constructs a HeapVec reserves at least BIGINT_LIMBS limbs (shl_limbs reports failure "
+          "beyond capacity(), and its callers unwrap)")
+    for c in acl:
+        f = afx[(c, "rel")]
+        h, n = E.r_heapvec_capacity(E.lib_view(f), ["root_f32", "root_f64"], f.const_int("bigint::BIGINT_LIMBS"))
+        rep.add(c + " heap capacity", E.hits_to_obs("R04.h", RH, h, n))
+        rep.floor("%s: HeapVec constructors reachable" % c, n, 1)
     rep.analysed["configurations"] = cl
+    rep.analysed["alloc_configurations_structural_rule_only"] = acl
     rep.note("release builds: every `+ - * <<` that carries an Assert(Overflow) in the debug MIR is the same operator in release; "
              "a proven Assert is also the proof that it cannot wrap. The alloc configurations (HeapVec over Vec) are not analysed by E4.")
     return rep.finish(
